@@ -275,16 +275,54 @@ def run_procs(case, d):
                 os._exit(code)
         os.close(w)
         pids.append((pid, r))
+    import select
+    import signal
+
+    def cpu_ticks(pid):
+        try:
+            with open(f"/proc/{pid}/stat") as f:
+                parts = f.read().rsplit(")", 1)[1].split()
+            return int(parts[11]) + int(parts[12])  # utime + stime
+        except (OSError, IndexError, ValueError):
+            return None
+
     results = []
     for pid, r in pids:
         chunks = []
+        hung = False
+        quiet_since = None  # (time, cpu ticks) of the last observation without progress
+        t0 = time.monotonic()
         while True:
-            b = os.read(r, 65536)
-            if not b:
+            ready, _, _ = select.select([r], [], [], 5.0)
+            if ready:
+                b = os.read(r, 65536)
+                if not b:
+                    break
+                chunks.append(b)
+                continue
+            # nothing for 5 s: a writer that is merely slow burns CPU, a deadlocked one does not. Only a child
+            # that has consumed NO cpu time at all for 30 s (after a 30 s grace period) is declared hung.
+            now, ticks = time.monotonic(), cpu_ticks(pid)
+            if now - t0 < 30 or ticks is None:
+                continue
+            if quiet_since is None or ticks != quiet_since[1]:
+                quiet_since = (now, ticks)
+            elif now - quiet_since[0] >= 30:
+                hung = True
                 break
-            chunks.append(b)
+            if now - t0 > 900:
+                os.kill(pid, signal.SIGKILL)
+                os.close(r)
+                os.waitpid(pid, 0)
+                raise HarnessError(f"process writer {pid} still busy after 900 s")
+        if hung:
+            os.kill(pid, signal.SIGKILL)
         os.close(r)
         os.waitpid(pid, 0)
+        if hung:
+            results.append(("exc", "Hung", "writer process made no progress and used no cpu for 30 s (deadlock)",
+                            ("process", "hung"), ""))
+            continue
         try:
             results.append(pickle.loads(b"".join(chunks)))  # noqa: S301
         except Exception:  # noqa: BLE001
